@@ -3,6 +3,7 @@ import Zc.Model.BrowserCb
 import Zc.Model.Responder
 import Zc.Model.Lookup
 import Zc.Model.Sched2
+import Zc.Model.QueryGen
 /-! # C15 — the downstream of the listener, composed from the models of the other properties
 
 `Zc.Survive.Down` left everything behind the listener uninterpreted.  Here it is instantiated with
@@ -111,6 +112,11 @@ structure CState (ρ : Type) where
   lookups : List Lookup.Info := []
   /-- `zc.registry` -/
   reg : Registry
+  /-- `zc.question_history` as the browsers' query generation reads and writes it (the responder side of it lives in the
+  routing residue) -/
+  hist : QueryGen.History := []
+  /-- the question history as the lookups' query generation reads it -/
+  lhist : Lookup.Hist := []
   /-- the answer sets of the query being handled, between `answer` and `enqueue` -/
   pending : Option Routed := none
   rest : ρ
